@@ -210,7 +210,14 @@ def observe(handles):
 
 def run_case(case, idx):
     reset()
-    cm, cb = advance(case["cm"], case["cb"])
+    left = sorted(mx.get_models())
+    if left:       # every registered model was closed and the registry is still not empty
+        return {"cm": 0, "cb": 0, "skew": False, "dirty": left, "obs": []}
+    try:
+        cm, cb = advance(case["cm"], case["cb"])
+    except Exception as e:   # the probe itself is a tiny history: new_model() / new_model('Zq') twice
+        reset()
+        return {"cm": 0, "cb": 0, "skew": False, "probe_failed": "%s: %s" % (type(e).__name__, e), "obs": []}
     res = {"cm": cm, "cb": cb, "skew": (cm != case["cm"] or cb != case["cb"]), "obs": []}
     if res["skew"]:
         return res
